@@ -179,6 +179,8 @@ package keeper
 //@ ensures [reject-clean-registry] result1 != nil ==> aggregate(ctx) == old(aggregate(ctx))
 
 // verif:func (Keeper).AddCoin
+// coins are aggregated into module-owned tokens only (an externally owned contract's escrow backs its own voucher)
+//@ ensures [module-owned-pair] result1 == nil ==> pold.IsNativeCoin()
 //@ ensures [base-unused] result1 == nil ==> !kvhas(old(aggregate(ctx)), denomKey(coinMetadata.Base))
 //@ nopanic dryrun
 //@ ensures [pair-returned] result1 == nil ==> result != nil
